@@ -69,10 +69,25 @@ def main():
         rows.append((sid, meta['property'], 'DETECTED by ' + ','.join(detected) if detected else 'MISSED (exits: %s)' % {p: v['exit'] for p, v in res.items()},
                      '; '.join(o for p in detected for o in found[p][:2])))
         print(rows[-1], flush=True)
-    with open(os.path.join(VERIF, 'seeded', 'RESULTS.md'), 'w') as fh:
-        fh.write('| seed | property | verdict | first failed obligations |\n|---|---|---|---|\n')
-        for r in rows:
-            fh.write('| %s | %s | %s | %s |\n' % r)
+    write_results()
+
+
+def write_results():
+    """RESULTS.md always lists every seed, from the meta files"""
+    lines = ['| seed | property | quick tier | thorough tier (only tried when quick missed) | first failed obligations |', '|---|---|---|---|---|']
+    for mp in sorted(glob.glob(os.path.join(VERIF, 'seeded', '*', 'meta.json'))):
+        m = json.load(open(mp))
+        if m.get('harmless'):
+            ev = m.get('last_evaluation')
+            lines.append('| %s | %s (harmless edit) | %s | | |' % (m['id'], m['property'], 'exits: %s' % {p: v['exit'] for p, v in ev['results'].items()} if ev else 'not evaluated'))
+            continue
+        q = m.get('detected_by'); t = m.get('thorough_detected_by')
+        qs = ('caught by ' + ', '.join(q)) if q else ('missed' if m.get('last_evaluation') else 'not evaluated')
+        ts = ('caught by ' + ', '.join(t)) if t else ('missed' if m.get('thorough_evaluation') else '')
+        obl = '; '.join(o for src in (q or t or {}).values() for o in src[:2])
+        lines.append('| %s | %s | %s | %s | %s |' % (m['id'], m['property'], qs, ts, obl.replace('|', '/')[:300]))
+    open(os.path.join(VERIF, 'seeded', 'RESULTS.md'), 'w').write('\n'.join(lines) + '\n')
+
 
 if __name__ == '__main__':
     main()
